@@ -13,8 +13,8 @@ def gen(seed, tier, out):
         subprocess.run([str(brv.BIN / "merkle"), "gen", str(seed), str(n), tier], stdout=f, check=True)
 
 
-EXPECTED_ORDER = ["ProcessTx", "AddMerkleProof", "AddHash", "FinalizeMerkleProofs", "Verify", "ProcessCoinbaseTx",
-                  "ConfirmTx", "AppendBlockTxIDs"]
+EXPECTED_ORDER = ["ProcessTx", "AddMerkleProof", "AddHash", "wasCancelled", "FinalizeMerkleProofs", "Verify", "wasCancelled",
+                  "ProcessCoinbaseTx", "ConfirmTx", "AppendBlockTxIDs"]
 
 SPEC = Spec(
     prop="C04",
